@@ -22,6 +22,8 @@ const MONO_INDEPENDENT: [&str; 10] = ["pi", "theta", "s", "d-tajima", "d-fu-li",
 const SWAP_INVARIANT: [&str; 6] = ["f2", "fst", "pi-xy", "king", "r0", "r1"];
 const SCALE_INVARIANT: [&str; 7] = ["f2", "f3", "f4", "fst", "king", "r0", "r1"];
 const SCALE_LINEAR: [&str; 5] = ["sum", "s", "pi", "pi-xy", "theta"];
+/// totals a spectrum is scaled to in addition to `SCALES`: next to one on both sides
+const NEAR_ONE: [f64; 5] = [1.00001, 0.999992, 1.0000001, 1.001, 0.9999999];
 const SCALES: [f64; 12] = [2.0, 0.5, 3.0, 1e-3, 1e6, 1e10, 1e15, 1e-12, 1e-18, 1e-30, 1e30, 0.75];
 
 fn stat(name: &str, x: &RefArray) -> Result<f64, String> {
@@ -184,8 +186,10 @@ fn check_spectrum(label: &str, x: &RefArray) -> (u64, Vec<Viol>) {
             }
         }
     }
-    // scaling
-    for c in SCALES {
+    // scaling; also to totals next to one (a spectrum that "looks normalized" is still one to normalize)
+    let total: f64 = x.data.iter().sum();
+    let near_one: Vec<f64> = if total.is_finite() && total > 0.0 { NEAR_ONE.iter().map(|t| t / total).collect() } else { Vec::new() };
+    for c in SCALES.iter().copied().chain(near_one) {
         let y = RefArray { shape: shape.clone(), data: x.data.iter().map(|v| v * c).collect() };
         for st in SCALE_INVARIANT {
             if !admissible(st, &shape) {
@@ -318,7 +322,9 @@ fn eval_cli(x: &RefArray, scratch: &Scratch) -> (u64, Vec<Viol>) {
         }
     }
     // scaling through the mixed list
-    for c in [2.0, 0.5, 1000.0, 1e12] {
+    let total: f64 = x.data.iter().sum();
+    let near_one: Vec<f64> = if total.is_finite() && total > 0.0 { vec![1.00001 / total, 0.999992 / total] } else { Vec::new() };
+    for c in [2.0, 0.5, 1000.0, 1e12].into_iter().chain(near_one) {
         let y = RefArray { shape: shape.clone(), data: x.data.iter().map(|v| v * c).collect() };
         n += all.len() as u64;
         match cli_stats(&y, &all, false, scratch) {
@@ -389,7 +395,7 @@ fn eval_cli(x: &RefArray, scratch: &Scratch) -> (u64, Vec<Viol>) {
 
 pub fn run(tier: Tier) -> i32 {
     let mut rep = Report::new("C14", tier, "exploration");
-    rep.rule = "relations between two evaluations of the implementation, each on every (shape, value set): f3/f4 = linear combinations of f2 of the two-population marginals (real marginalize + normalize); stat(fold_0 x) = stat(x) for the 12 listed statistics; independence of the two monomorphic cells (values {0, 1, 1000, 1e17, 1e150}: also values next to which the polymorphic mass vanishes in floating point) for all but sum/f2/f3/f4; population swap for f2, Fst, pi_xy, KING, R0, R1; scaling by c in {2, 1/2, 3/4, 3, 1e-3, 1e6, 1e10, 1e15, 1e-12, 1e-18, 1e-30, 1e30} (totals beyond 1e9 and 2^53 and far below one). Shapes: 1-D n+1 = 3..12, 2-D {2..6}^2, 3-D {2..4}^3, 4-D {2,3}^4, always including unequal lengths, plus one ramp spectrum for every one-axis size from 13 to 400 entries and six two-axis shapes with totals around 100, and seven spectra of 1 030 .. 77 520 entries (1-D beyond 1 024, 70x65, 19x17x15, 45x41x39, 19x17x16x15); value sets: every basis spectrum, every two-cell spectrum (small shapes), a ramp and a powers-of-two spectrum. L2: `sfs stat` with all admissible statistics in one -s list vs each alone, `sfs fold --fill zero | sfs stat`, scaled inputs. Non-trivial = unequal axis lengths or a non-basis spectrum.".into();
+    rep.rule = "relations between two evaluations of the implementation, each on every (shape, value set): f3/f4 = linear combinations of f2 of the two-population marginals (real marginalize + normalize); stat(fold_0 x) = stat(x) for the 12 listed statistics; independence of the two monomorphic cells (values {0, 1, 1000, 1e17, 1e150}: also values next to which the polymorphic mass vanishes in floating point) for all but sum/f2/f3/f4; population swap for f2, Fst, pi_xy, KING, R0, R1; scaling by c in {2, 1/2, 3/4, 3, 1e-3, 1e6, 1e10, 1e15, 1e-12, 1e-18, 1e-30, 1e30} (totals beyond 1e9 and 2^53 and far below one) and to totals of 1.00001, 0.999992, 1.0000001, 1.001, 0.9999999 (next to one without being one). Shapes: 1-D n+1 = 3..12, 2-D {2..6}^2, 3-D {2..4}^3, 4-D {2,3}^4, always including unequal lengths, plus one ramp spectrum for every one-axis size from 13 to 400 entries and six two-axis shapes with totals around 100, and seven spectra of 1 030 .. 77 520 entries (1-D beyond 1 024, 70x65, 19x17x15, 45x41x39, 19x17x16x15); value sets: every basis spectrum, every two-cell spectrum (small shapes), a ramp and a powers-of-two spectrum. L2: `sfs stat` with all admissible statistics in one -s list vs each alone, `sfs fold --fill zero | sfs stat`, scaled inputs. Non-trivial = unequal axis lengths or a non-basis spectrum.".into();
     let mut shp: Vec<Vec<usize>> = (3..=12).map(|n| vec![n]).collect();
     shp.extend(shapes(2, 2, tier.pick(5, 6), usize::MAX).into_iter().filter(|s| s.len() == 2));
     shp.extend(shapes(3, 2, tier.pick(3, 4), usize::MAX).into_iter().filter(|s| s.len() == 3));
